@@ -4,6 +4,7 @@ import sys
 from typing import List
 
 sys.path.insert(0, os.path.dirname(os.path.dirname(os.path.dirname(os.path.abspath(__file__)))))
+import fxv.env  # noqa: E402,F401  (must precede any furax import: selects FURAX_SRC)
 import furax._base.config as C  # noqa: E402
 from fxv.ch import c19_model as M  # noqa: E402
 
